@@ -19,19 +19,24 @@ CONSTANTS MinCols, MaxCols, Kinds, Patterns, Forms, RowCounts
 VARIABLES layout, pattern, form, nrows, phase, outRows, outCols, outConst
 vars == <<layout, pattern, form, nrows, phase, outRows, outCols, outConst>>
 
-Layouts == UNION {[1..n -> Kinds] : n \in MinCols..MaxCols}
 NonConst(l) == {i \in DOMAIN l : l[i] # "constant"}
 
-Init == /\ layout \in {l \in Layouts : Cardinality(NonConst(l)) >= 1}
-        /\ pattern \in Patterns /\ form \in Forms /\ nrows \in RowCounts
-        /\ phase = "new" /\ outRows = 0 /\ outCols = <<>> /\ outConst = {}
+\* the table is described column by column (so that random walks of TLC's simulator reach wide tables without enumerating
+\* all layouts first), then the request is completed and the two calls are made
+Init == /\ layout = <<>> /\ pattern \in Patterns /\ form \in Forms /\ nrows \in RowCounts
+        /\ phase = "describe" /\ outRows = 0 /\ outCols = <<>> /\ outConst = {}
+AddColumn == /\ phase = "describe" /\ Len(layout) < MaxCols
+             /\ \E kd \in Kinds : layout' = Append(layout, kd)
+             /\ UNCHANGED <<pattern, form, nrows, phase, outRows, outCols, outConst>>
+Ready == /\ phase = "describe" /\ Len(layout) >= MinCols /\ Cardinality(NonConst(layout)) >= 1
+         /\ phase' = "new" /\ UNCHANGED <<layout, pattern, form, nrows, outRows, outCols, outConst>>
 Fit == phase = "new" /\ phase' = "fitted" /\ UNCHANGED <<layout, pattern, form, nrows, outRows, outCols, outConst>>
 Sample == /\ phase = "fitted" /\ phase' = "sampled"
           /\ outRows' = nrows
           /\ outCols' = [i \in DOMAIN layout |-> i]                     \* the training columns, in training order
           /\ outConst' = {i \in DOMAIN layout : layout[i] = "constant"}    \* reproduced exactly
           /\ UNCHANGED <<layout, pattern, form, nrows>>
-Next == Fit \/ Sample
+Next == AddColumn \/ Ready \/ Fit \/ Sample
 Spec == Init /\ [][Next]_vars
 
 SchemaOK == phase = "sampled" => /\ outRows = nrows /\ Len(outCols) = Len(layout)
